@@ -4,6 +4,23 @@ from . import codec
 REGEX = {"none": None, "R1": r"[a-z]+\Z", "R2": "a", "R3": "[0-9]{2}"}
 
 
+def _v_even(cfg, value):
+    if not isinstance(value, int) or value % 2:
+        raise ValueError("value must be even")
+    return value
+
+
+def _v_fail(cfg, value):
+    raise ValueError("always rejected")
+
+
+def _v_neg(cfg, value):
+    return -value if isinstance(value, int) and not isinstance(value, bool) else value
+
+
+FIELD_VALIDATORS = {"v_even": _v_even, "v_fail": _v_fail, "v_neg": _v_neg}
+
+
 def _str(x):
     return "".join(codec.seq(x))
 
@@ -18,6 +35,8 @@ def common_kwargs(d, root, with_default=True):
         kw["sensitive"] = True
     if d.get("fname"):
         kw["name"] = d["fname"]
+    if d.get("fval", "none") != "none":
+        kw["validator"] = FIELD_VALIDATORS[d["fval"]]
     env = d.get("env", "inherit")
     if env == "auto":
         kw["env"] = True
@@ -85,7 +104,7 @@ def build(cinco, d, root=None, with_default=True):
             kw["max"] = d["max"] * scale if kind == "float" else d["max"]
         return F.IntField(**kw) if kind == "int" else F.FloatField(**kw)
     if kind == "bool":
-        return F.BoolField(**kw)
+        return F.FeatureFlagField(**kw) if d.get("flag") else F.BoolField(**kw)
     if kind == "bytes":
         return F.BytesField(encoding=d["encoding"], **kw)
     if kind == "secure":
